@@ -366,6 +366,7 @@ Catalogue ==
   \cup {[op |-> "deleteSample", iech |-> i] : i \in IechArgs}
   \cup {[op |-> "setArray", uid |-> u, iech |-> i, val |-> 3] : u \in UidArgs, i \in IechArgs}
   \cup {[op |-> "setValueByColIdx", col |-> k, iech |-> i, val |-> 3] : k \in ColArgs, i \in IechArgs}
+  \cup {[op |-> "setValueByColIdx", col |-> k, iech |-> i, val |-> -999] : k \in ColArgs, i \in IechArgs}   \* -999 = undefined (NA)
   \cup {[op |-> "setValue", name |-> n, iech |-> i, val |-> 3] : n \in NameArgs, i \in IechArgs}
   \cup {[op |-> "setLocVariable", t |-> t, r |-> r, iech |-> i, val |-> 3] : t \in Types, r \in {0, 1}, i \in IechArgs}
   \cup {[op |-> "setColumnByUID", uid |-> u, val |-> 40] : u \in UidArgs}
